@@ -9,6 +9,21 @@ ROOT = os.path.dirname(os.path.dirname(os.path.abspath(__file__)))
 ALL = [f'C{i:02d}' for i in range(1, 21)]
 
 CHECKS = {
+    'C01': dict(
+        level='fault_enumeration',
+        technique='runtime monitoring under fault injection: record-level '
+                  'MITM tamper operators on an in-memory wire, prefix oracle '
+                  'fed by an independent wire tap, owner error-class check',
+        text='For every negotiable cipher and MAC class and both directions, '
+             'tamper operators (bit flips per field, truncation+EOF, drop, '
+             'duplicate, swap, splice, insert) are applied to encrypted '
+             'records at several positions; the receiving application must '
+             'have been handed exactly the bytes carried by records before '
+             'the altered one, and its owner must be told an integrity/'
+             'protocol error (plain loss only for stalls).',
+        note='trusted: harness MITM, refssh tap for record contents; UMAC '
+             'cases judged by prefix-ness + error class only',
+        design='3/C01'),
     'C02': dict(
         level='exploration',
         technique='runtime monitoring with an independent second '
@@ -41,6 +56,22 @@ CHECKS = {
              'arguments for the passive tap (the active reference peer needs '
              'no capture)',
         design='3/C11'),
+    'C03': dict(
+        level='fault_enumeration',
+        technique='runtime monitoring under fault injection: cleartext '
+                  'handshake MITM with covered/uncovered edit classification, '
+                  'independent first-match negotiation oracle',
+        text='For every non-GSS kex method, field-level and byte-level edits '
+             'of version strings, both KEXINITs, every KEX* message, public '
+             'values (range / invalid encodings) and the host key are '
+             'injected; covered edits must make connect() fail and the '
+             'server drop; uncovered edits may complete only with equal '
+             'session ids and reference-negotiated algorithms; random '
+             'preference lists are negotiated against the reference '
+             'first-match function.',
+        note='trusted: edit classification per RFC 4253/4419/5656/8731, '
+             'refssh KEXINIT parser/negotiator',
+        design='3/C03'),
     'C07': dict(
         level='exploration',
         technique='runtime monitoring: self-identifying payload streams + '
